@@ -1,7 +1,7 @@
 (* lib.rs compile(): lex -> exec -> (flush ties) -> play_from -> normalize/sort -> SMF bytes, and the log text.
    Source text here is what lexer::lex receives (after sutoton::convert). *)
 From Sakura.Model Require Import Base Cursor Event Writer Song Token LexCore RunCore Tie.
-From Sakura.Gen Require Import Consts.
+From Sakura.Gen Require Import Consts VarRows.
 Open Scope Z_scope.
 
 (* song.rs Track::play_from(timepos) *)
@@ -57,7 +57,7 @@ Definition STEPS : nat := Z.to_nat 400000.
 Definition song_after_lex (ls : lexstate) : song := song_with_ls song_new ls.
 
 Definition run_source (src : list ch) : res song :=
-  do lx <- lex (mkLex 96 [] init_vars) src 0;
+  do lx <- lex (mkLex 96 [] init_vars rhythm_rows) src 0;
   let '(toks, ls) := lx in
   exec_f (S (length src)) STEPS toks (Ok (song_after_lex ls)).
 
